@@ -470,6 +470,6 @@ var subRT = runlog.Register(&runlog.Sub[Case]{
 	Run:  runCase,
 })
 
-func TestStructRoundTrip(t *testing.T) { subRT.Check(t, 200000, 4000000) }
+func TestStructRoundTrip(t *testing.T) { subRT.Check(t, 200000, 2000000) }
 
 func TestReplay(t *testing.T) { runlog.ReplayMain(t) }
